@@ -1407,8 +1407,91 @@ def r13_list_form_is_the_generator(repo=None):
     return r
 
 
+def r14_times_do_not_depend_on_the_process_time_zone(repo=None):
+    """'A time window selects exactly the files whose name timestamp lies in [start, end]': the times of sub-directory and file
+    names are UTC by definition of the format and are compared with a window given in UTC.  Turning a name into a time through the
+    local time zone of the process (`.timestamp()` of a naive datetime - what `strptime` without %z or `datetime(...)` without
+    tzinfo give -, time.mktime, time.localtime, fromtimestamp without tz) shifts it by the UTC offset: the listing is right under
+    TZ=UTC and wrong everywhere else.  Who-may-call rule over the modules that compute name times (zero sites on the reference
+    tree; the vocabulary of the rule is exercised by a built-in variant)."""
+    r = Rule("C14.R14", "no name time is computed through the local time zone of the process (naive .timestamp(), mktime, localtime)")
+    n_fn = 0
+    for mod in ("list_drf", "watchdog_drf", "digital_metadata", "digital_rf_hdf5"):
+        m = pyfront.mod(mod, repo)
+        for q, f in m.functions.items():
+            if "<locals>" in q:
+                continue
+            n_fn += 1
+            env = {}
+            for a in ast.walk(f):
+                if isinstance(a, ast.Assign) and len(a.targets) == 1 and isinstance(a.targets[0], ast.Name):
+                    env.setdefault(a.targets[0].id, []).append(a.value)
+
+            def naive(e, depth=0):
+                """True: certainly naive; False: certainly aware; None: unknown"""
+                if depth > 3:
+                    return None
+                if isinstance(e, ast.Name):
+                    vs = env.get(e.id, [])
+                    res = [naive(v, depth + 1) for v in vs]
+                    if res and all(x is True for x in res):
+                        return True
+                    if res and all(x is False for x in res):
+                        return False
+                    return None
+                if isinstance(e, ast.Call):
+                    cn = pyfront.call_name(e) or ""
+                    if cn.endswith("strptime"):
+                        fmt = e.args[1] if len(e.args) > 1 else None
+                        if isinstance(fmt, ast.Name):
+                            mv = m.module_assign(fmt.id)
+                            fmt = mv if mv is not None else fmt
+                        if isinstance(fmt, ast.Constant) and isinstance(fmt.value, str):
+                            return "%z" not in fmt.value
+                        return None
+                    if cn.endswith("utcfromtimestamp") or cn.endswith("utcnow"):
+                        return True
+                    if cn in ("datetime.datetime", "datetime"):
+                        if any(k.arg == "tzinfo" for k in e.keywords) or len(e.args) >= 8:
+                            return False
+                        if any(k.arg is None for k in e.keywords):
+                            return None
+                        return True
+                    if isinstance(e.func, ast.Attribute) and e.func.attr == "replace" and any(k.arg == "tzinfo" for k in e.keywords):
+                        return False
+                    if cn.endswith("fromtimestamp") or cn.endswith(".now"):
+                        return False if (len(e.args) >= 2 or any(k.arg in ("tz", "tzinfo") for k in e.keywords)) else True
+                if isinstance(e, ast.BinOp):
+                    l_, r_ = naive(e.left, depth + 1), naive(e.right, depth + 1)
+                    return l_ if l_ is not None else r_
+                return None
+            for c in ast.walk(f):
+                if not isinstance(c, ast.Call):
+                    continue
+                cn = pyfront.call_name(c) or ""
+                site = "%s:%s %s `%s`" % (m.rel, c.lineno, q, norm(ast.unparse(c))[:60])
+                if cn in ("time.mktime", "time.localtime", "time.ctime") or cn.endswith(".astimezone") and not c.args and not c.keywords:
+                    r.violation(m.rel, q, norm(ast.unparse(c))[:70], "a time is converted through the local time zone of the process: name times "
+                                "and the window are UTC, the result is shifted by the UTC offset wherever TZ is not UTC", line=c.lineno)
+                elif isinstance(c.func, ast.Attribute) and c.func.attr == "timestamp" and not c.args:
+                    nv = naive(c.func.value)
+                    if nv is True:
+                        r.violation(m.rel, q, norm(ast.unparse(c))[:70], "`.timestamp()` of a datetime without time zone reads it as *local* time: the "
+                                    "time computed from a UTC name is off by the UTC offset of the listing process - files inside the "
+                                    "window are dropped and the forward-fill file is hours too old unless TZ is UTC", line=c.lineno)
+                    elif nv is None:
+                        raise AnalysisError("%s: whether `%s` is time-zone aware was not decided" % (q, norm(ast.unparse(c.func.value))[:50]))
+                    else:
+                        r.ok(site, "`.timestamp()` of a time-zone aware value")
+    if n_fn < 100:
+        raise AnalysisError("only %d functions scanned" % n_fn)
+    r.ok("python/digital_rf/{list_drf,watchdog_drf,digital_metadata,digital_rf_hdf5}.py", "%d functions scanned: no conversion through the local time zone" % n_fn)
+    r.guard(1)
+    return r
+
+
 def rules(repo=None):
-    return [lambda: r13_list_form_is_the_generator(repo), lambda: r12_walk_prunes_only_inside_channels(repo), lambda: r11_sort_keys_and_vanished_first_subdir(repo), lambda: r1_grammar(repo), lambda: r2_kind_tables(repo), lambda: r3_sorted_before_sliced(repo),
+    return [lambda: r14_times_do_not_depend_on_the_process_time_zone(repo), lambda: r13_list_form_is_the_generator(repo), lambda: r12_walk_prunes_only_inside_channels(repo), lambda: r11_sort_keys_and_vanished_first_subdir(repo), lambda: r1_grammar(repo), lambda: r2_kind_tables(repo), lambda: r3_sorted_before_sliced(repo),
             lambda: r4_robust_listing(repo), lambda: r5_lookback_complete(repo),
             lambda: r6_reverse_changes_only_the_order(repo), lambda: r7_window_end_inclusive(repo),
             lambda: r8_forward_fill_file_always_taken(repo), lambda: r9_grammar_names_that_are_not_times(repo),
@@ -1440,7 +1523,10 @@ EXPLANATION = (
     'of ilsdrf: sort / sorted of the whole list, and emptying it under the recursion flag; a filter (comprehension with a'
     ' condition, filter(), remove / pop) is a violation, anything else is not decided. R13: lsdrf returns '
     "list(ilsdrf(...)) with every argument forwarded; a filter, set, re-sort or slice of the generator's items is a "
-    'violation.')
+    'violation. R14: who-may-call rule over list_drf, watchdog_drf, digital_metadata and digital_rf_hdf5 - no time is '
+    'converted through the local time zone of the process (time.mktime / localtime, `.timestamp()` of a value that is '
+    'certainly naive: strptime without %z, datetime(...) without tzinfo, utcnow); an undecided receiver of `.timestamp()`'
+    ' is exit 2.')
 TECHNIQUE = ('Python ast; regular-language algebra on folded regex constants; abstract execution of flag chains; sortedness typestate over the CFG; guarded-subscript dataflow; order/element interpretation of sequence expressions + partial evaluation of conditions for both values of a flag')
 ASSUMPTIONS = ["os.walk swallows listing errors by default", "Python regex semantics as modelled by vp.rx"]
 FILES = [LD]
